@@ -115,24 +115,47 @@ theorem umax2INTEGER_spec (v : Nat) (h : v < 2 ^ 64) :
       norm_num
       omega
 
-/-- **asn_INTEGER2umax**, partial: correct for every octet string that denotes a non-negative value
-    (negative values: finding F3, `INTEGER2umax_negative_cex`). -/
-theorem INTEGER2umax_partial (bs : Bytes) (h : Bytes.wf bs) (hnn : 0 ≤ twosVal bs) :
-    INTEGER2umax bs = if twosVal bs < 2 ^ 64 then .ok (twosVal bs).toNat else .erange := by
-  rw [INTEGER2umax_unsigned_spec bs h, twosVal_nonneg bs h hnn]
-  simp only [Int.toNat_natCast]
-  by_cases hlt : unsVal bs < 2 ^ 64
-  · rw [if_pos hlt, if_pos (by exact_mod_cast hlt)]
-  · rw [if_neg hlt, if_neg (by exact_mod_cast hlt)]
+/-- **asn_INTEGER2umax** on any octet string (non-minimal forms of any length included): returns the
+    denoted value exactly when it fits `uintmax_t` (0 ≤ value < 2^64), otherwise ERANGE; in particular
+    every negative INTEGER is a range error (finding F3 repaired: the former `INTEGER2umax_partial`
+    needed `0 ≤ twosVal bs`). -/
+theorem INTEGER2umax_spec (bs : Bytes) (h : Bytes.wf bs) :
+    INTEGER2umax bs = if fitsU64 (twosVal bs) then .ok (twosVal bs).toNat else .erange := by
+  by_cases hneg : isNegative bs = true
+  · have hlt := (isNegative_iff bs h).mp hneg
+    unfold INTEGER2umax
+    rw [hneg, if_pos rfl, if_neg (by unfold fitsU64; omega)]
+  · have hn : isNegative bs = false := by simpa using hneg
+    have hnn : 0 ≤ twosVal bs := by
+      have := (isNegative_iff bs h).not.mp hneg; omega
+    rw [INTEGER2umax_unsigned_spec bs h hn, twosVal_nonneg bs h hnn]
+    simp only [Int.toNat_natCast]
+    by_cases hlt : unsVal bs < 2 ^ 64
+    · rw [if_pos hlt, if_pos (by unfold fitsU64; exact ⟨by omega, by exact_mod_cast hlt⟩)]
+    · rw [if_neg hlt, if_neg (by unfold fitsU64; intro hf; exact hlt (by exact_mod_cast hf.2))]
+
+/-- **asn_INTEGER2ulong** (`unsigned long` = `uintmax_t` on LP64): likewise -/
+theorem INTEGER2ulong_spec (bs : Bytes) (h : Bytes.wf bs) :
+    INTEGER2ulong bs = if fitsU64 (twosVal bs) then .ok (twosVal bs).toNat else .erange := by
+  unfold INTEGER2ulong
+  rw [INTEGER2umax_spec bs h]
+  by_cases hf : fitsU64 (twosVal bs)
+  · rw [if_pos hf]; unfold fitsU64 at hf; simp only []; rw [if_neg (by omega)]
+  · rw [if_neg hf]
 
 /-- round trip for every `uintmax_t` -/
 theorem INTEGER2umax_umax2INTEGER (v : Nat) (h : v < 2 ^ 64) : INTEGER2umax (umax2INTEGER v) = .ok v := by
   obtain ⟨_, hw, _, hv⟩ := umax2INTEGER_spec v h
-  rw [INTEGER2umax_partial _ hw (by rw [hv]; omega), hv]
-  rw [if_pos (by exact_mod_cast h)]; simp
+  rw [INTEGER2umax_spec _ hw, hv, if_pos (by unfold fitsU64; omega)]
+  simp
 
-/-- F3: a negative INTEGER is silently read as a large unsigned one (FIXME in the C source). -/
-theorem INTEGER2umax_negative_cex : twosVal [255] = -1 ∧ INTEGER2umax [255] = .ok 255 := by decide
+/-- the former F3 witness: the INTEGER −1 (`FF`) is now a range error, and so is every negative INTEGER -/
+theorem INTEGER2umax_negative_erange (bs : Bytes) (h : Bytes.wf bs) (hneg : twosVal bs < 0) :
+    INTEGER2umax bs = .erange ∧ INTEGER2ulong bs = .erange := by
+  rw [INTEGER2umax_spec bs h, INTEGER2ulong_spec bs h, if_neg (by unfold fitsU64; omega)]
+  exact ⟨rfl, rfl⟩
+
+example : twosVal [255] = -1 ∧ INTEGER2umax [255] = .erange ∧ INTEGER2ulong [255] = .erange := by decide
 
 /-- **asn_ulong2INTEGER**: canonical octets for every `unsigned long` (finding F2 repaired: the value no longer
     passes through `intmax_t`). -/
